@@ -95,25 +95,24 @@ def unit_cases(unit):
 
 
 def hyp_examples(tier):
-    return 2500 if tier == "quick" else 200000
+    return 6000 if tier == "quick" else 400000
 
 
-@st.composite
-def _cases(draw):
-    env = {"k_a": draw(st.sampled_from([0, 1, 5, 0xFF, 0x1234, 0x12345])), "k_b": draw(st.integers(0, 0x1FFFF)),
-           "k_c": draw(st.sampled_from([2, 0x80, 0xFFFF, 0x10000])), "lb_a": draw(st.sampled_from([0x018123, 0x00FFF0, 0x2F8000]))}
-    names = draw(st.sampled_from([None, None, ["k_a", "k_b"], ["k_a", "k_b", "k_c", "lb_a"]]))
-    dironly = draw(st.booleans())
+def _build_case(rng):
+    env = {"k_a": rng.choice([0, 1, 5, 0xFF, 0x1234, 0x12345]), "k_b": rng.randint(0, 0x1FFFF),
+           "k_c": rng.choice([2, 0x80, 0xFFFF, 0x10000]), "lb_a": rng.choice([0x018123, 0x00FFF0, 0x2F8000])}
+    names = rng.choice([None, None, ["k_a", "k_b"], ["k_a", "k_b", "k_c", "lb_a"]])
+    dironly = rng.random() < 0.5
     ops = ["*", "+", "-", "<<", ">>", "&"] if dironly else None
-    raw = draw(gen.expr_trees(names=names, max_leaves=draw(st.sampled_from([3, 6, 12])), ops=ops, inv=not dironly))
+    raw = gen.r_expr(rng, names=names, max_leaves=rng.choice([3, 6, 12, 25]), ops=ops, inv=not dironly)
     tree, _ = gen.repair(raw, env)
-    gaps = draw(st.one_of(st.none(), gen.spacings()))
+    gaps = None if rng.random() < 0.4 else [rng.choice(["", "", " ", " ", "  ", "   "]) for _ in range(rng.randint(0, 60))]
     return {"tree": tree, "gaps": gaps, "env": {k: v for k, v in env.items() if k in set(X.idents(tree))} if names else {},
             "org": env["lb_a"]}
 
 
 def strategy(tier):
-    return _cases()
+    return gen.seeded(_build_case)
 
 
 # ----------------------------------------------------------------------------------------------
